@@ -216,6 +216,35 @@ func (node *FamilyNode) SetHusbandPointer(pointer string) *FamilyNode {
 	return node
 }
 
+// AddNode, DeleteNode and SetNodes change the children of the family. The
+// husband, the wife and the families and spouses of every individual in the
+// document are derived from those children, so what was remembered about them
+// is forgotten.
+func (node *FamilyNode) AddNode(n Node) {
+	node.SimpleNode.AddNode(n)
+	node.childrenChanged()
+}
+
+func (node *FamilyNode) DeleteNode(n Node) (didDelete bool) {
+	didDelete = node.SimpleNode.DeleteNode(n)
+	node.childrenChanged()
+
+	return
+}
+
+func (node *FamilyNode) SetNodes(nodes Nodes) {
+	node.SimpleNode.SetNodes(nodes)
+	node.childrenChanged()
+}
+
+func (node *FamilyNode) childrenChanged() {
+	node.resetCache()
+
+	if node.document != nil {
+		node.document.familyLinksVersion++
+	}
+}
+
 func (node *FamilyNode) resetCache() {
 	node.cachedHusband = false
 	node.cachedWife = false
